@@ -90,6 +90,24 @@ def reshape(n):
     return Req('reshape%d' % n, fn, gen='g%d' % n, provider=1)
 
 
+def reshape_both(n):
+    """reshaper naming provider 1 both in inventories and in a consumer's
+    allocations (two loads of the same provider inside one request)"""
+    def fn(ctx, w):
+        return app.call('POST', '/reshaper', {
+            'inventories': {U(1): {
+                'resource_provider_generation': ctx.int('g%d' % n),
+                'inventories': {'VCPU': {
+                    'total': ctx.int('new_total%d' % n, 1)}}}},
+            'allocations': {CONS(1): {
+                'allocations': {U(1): {'resources': {
+                    'VCPU': ctx.int('amt%d' % n, 1)}}},
+                'project_id': 'proj', 'user_id': 'user',
+                'consumer_generation': None}}},
+            version='1.36', roles='admin,service')
+    return Req('reshape_both%d' % n, fn, gen='g%d' % n, provider=1)
+
+
 def post_inv(n):
     def fn(ctx, w):
         return app.call('POST', RP + '/inventories', {
@@ -192,6 +210,7 @@ def families(tier):
         make_family('put_invs+put_traits', [put_invs(1), put_traits(2)]),
         make_family('put_traits+put_aggs', [put_traits(1), put_aggs(2)]),
         make_family('put_invs+put_alloc', [put_invs(1), put_alloc(2)]),
+        make_family('reshape_both+put_invs', [reshape_both(1), put_invs(2)]),
         # a retried write (duplicate-key race while an aggregate is first
         # recorded) with another guarded write committing in between
         make_family('put_aggs_new+put_aggs/duplicate',
